@@ -1111,6 +1111,11 @@ func checkCode93Checksum(c *Ctx, r *Report) {
 			bad = "the loop must run from the last character down to index 0"
 		}
 		if bad != "" && bad[0] == '?' {
+			if whole := code93WholeFold(c, fd, p); whole != "?" {
+				// the loop body is not the shape the transition matcher knows: the whole function is folded instead
+				r.Check(whole == "", "S-C93W", key, c.pos(loop.Pos()), whole)
+				return
+			}
 			r.Undecided("S-C93W", key, c.pos(loop.Pos()), bad)
 			return
 		}
@@ -1365,4 +1370,58 @@ func checkExtensions(c *Ctx, r *Report) {
 		})
 		r.Check(ok, "M-CHECK-EXT", key, c.pos(fd.Pos()), "add-on metadata must be attached only on the arm where the extension reader returned no error")
 	}
+}
+
+// code93WholeFold folds code93CheckOneChecksum(result, checkPosition, weightMax) as a whole for both weight limits, check
+// positions 1..24 and every alphabet character at every position (the others being the zero-valued character): the right
+// check character is accepted, any other rejected. Returns "" (holds), a violation text, or "?" when fd is another function
+// or does not fold.
+func code93WholeFold(c *Ctx, fd *ast.FuncDecl, p *packages.Package) string {
+	if fd.Name.Name != "code93CheckOneChecksum" || len(paramObjs(p, fd)) != 3 {
+		return "?"
+	}
+	ainit, ap := c.varInit("oned", "code93AlphabetString")
+	if ainit == nil {
+		return "?"
+	}
+	av := c.eval(ap, ainit)
+	if av.K != VStr || len(av.S) < 47 {
+		return "?"
+	}
+	alpha := av.S
+	for _, wmax := range []int64{20, 15} {
+		for cp := int64(1); cp <= 24; cp++ {
+			for i := int64(0); i < cp; i++ {
+				for a := int64(0); a < 47; a++ {
+					w := (cp-1-i)%wmax + 1
+					want := alpha[(w*a)%47]
+					for _, wrong := range []bool{false, true} {
+						res := &Val{K: VList}
+						for k := int64(0); k <= cp; k++ {
+							ch := alpha[0]
+							if k == i {
+								ch = alpha[a]
+							}
+							if k == cp {
+								ch = want
+								if wrong {
+									ch = alpha[((w*a)%47+1)%47]
+								}
+							}
+							res.L = append(res.L, &Val{K: VInt, I: int64(ch), T: types.Typ[types.Byte]})
+						}
+						out, err := c.rpfCall(fd, p, []*Val{res, vint(cp), vint(wmax)}, &rpf{unroll: 200, callHook: errCtorHook})
+						if err != nil {
+							return "?"
+						}
+						rejected := len(out) != 1 || out[0].K != VNil
+						if rejected != wrong {
+							return fmt.Sprintf("weights up to %d, check position %d, character %q at position %d: check character %q is %s; the weighted sum modulo 47 selects %q", wmax, cp, alpha[a], i, res.L[cp].I, map[bool]string{true: "rejected", false: "accepted"}[rejected], want)
+						}
+					}
+				}
+			}
+		}
+	}
+	return ""
 }
